@@ -102,6 +102,22 @@ CHECKS["C18"] = dict(
        "the gRPC message mapping is exercised end to end by the C19 harness.",
   technique="Coq proof (base64/layout/id lemmas) + byte-for-byte differential against a documented-shape printer + two-way exchange with a reference codec", design="6/C18")
 
+CHECKS["C08"] = dict(
+  text="Coq theorem (counting invariant, induction over schedules): for ANY number of goroutines, ANY schedule and ANY set of entries evicted at each load (every policy, capacity >= 1) no goroutine ever uses a "
+       "destroyed key and reference counts are exact (cache reference + holders); the unlock-then-count order of the tree before fix 8f60ea4 is refuted by a 15-step schedule. Tie: seeded random and PCT-priority "
+       "schedules of 2-4 real goroutines against one factory with capacity-1/2 caches under a cooperative controller whose yield points are inserted by the overlay before every lock acquisition, "
+       "reference-count update and condition wait; monitors: every operation on an open session succeeds with the right bytes, no use after destroy, no double release, no deadlock.",
+  note="Partial: the Go scheduler and memory model are represented by interleavings of the blocks between synchronisation points; data-race freedom is assumed; asynchronous eviction callbacks run uncontrolled. "
+       "The model is not compared step by step with the code: the tie is the schedule exploration on the real code at the same yield points.",
+  technique="Coq proof (invariant over unbounded threads/schedules) + controlled-schedule exploration of real goroutines", design="6/C08")
+CHECKS["C16"] = dict(
+  text="Coq theorem for ANY number of goroutines/partitions, ANY schedule of Get/use/Close/Remove/factory-Close steps and ANY evictions: no holder uses a session whose underlying encryption was closed; usage counter = "
+       "number of holders; underlying Close at most once and only after the session left the cache and its last holder closed; one partition id per cached session. Tie: controlled schedules of real goroutines over "
+       "more partitions than the session cache holds (capacity 1-2, lru/slru/lfu, also with a shared LRU-1 key cache); monitors: holders' operations succeed, nothing used after destruction, nothing released twice, "
+       "nothing live after factory close, no deadlock.",
+  note="Partial in the same sense as C08; expiry is modelled as eviction; Remove goroutines run uncontrolled in the harness.",
+  technique="Coq proof (invariant over unbounded threads/schedules) + controlled-schedule exploration of real goroutines", design="6/C16")
+
 NOT_APPLICABLE = []
 
 
